@@ -257,7 +257,14 @@ pub fn dispatch(inp: &Value) -> R<Value> {
     let proto = field(inp, "proto")?.as_str().ok_or("proto")?;
     let variant = field(inp, "variant")?.as_str().ok_or("variant")?;
     let mk = || Log { calls: vec![], fail };
-    let (a, b) = if proto == "ctap2-vendor" {
+    let (a, b) = if proto == "ctap1-constructed" {
+        // an Authenticate request built directly: wire = control byte, then the key handle
+        let control_byte = ctap1::ControlByte::try_from(wire[0]).map_err(|_| "bad control byte")?;
+        let (ch, app) = ([0x11u8; 32], [0x22u8; 32]);
+        let req = ctap1::Request::Authenticate(ctap1::authenticate::Request {
+            control_byte, challenge: &ch, app_id: &app, key_handle: &wire[1..] });
+        (run1(&mut FullAuth(mk()), |a| &mut a.0, &req, false), run1(&mut FullAuth(mk()), |a| &mut a.0, &req, true))
+    } else if proto == "ctap2-vendor" {
         // a vendor request constructed directly from its code (not through the decoder)
         let op = ctap2::VendorOperation::try_from(wire[0]).map_err(|_| "not a vendor code")?;
         let req = ctap2::Request::Vendor(op);
